@@ -72,14 +72,14 @@ PROPS = {
             'the inference from "status is never reset on an unwind path" to "no partial result is ever readable" is a written argument',
         ]),
     'C06': dict(
-        units=['cutoff'], level='other',
+        units=['nodepred'], level='other',
         replays=[],
         uncovered=[
             'maybe_change_value / maybe_change_value_manual / child_changed bodies (interleaved writes on several nodes): frame obligations only',
             'the MapRef did_change flag over time (a known history-dependent defect is recorded in DESIGN.md section 5 as not decidable here)',
         ]),
     'C05': dict(
-        units=['necessary', 'observer', 'var'], level='other',
+        units=['nodepred', 'observer', 'var'], level='other',
         replays=[],
         uncovered=[
             'the became_unnecessary cascade and the cone statement itself',
@@ -95,8 +95,7 @@ LEMMA_PROPS = {
     'handlers': {'*': ['C09']},
     'observer': {'lemma_handler_count_invariant': ['C11', 'C09'], 'lemma_lifecycle': ['C10'], '*': ['C10']},
     'var': {'*': ['C08']},
-    'cutoff': {'*': ['C06']},
-    'necessary': {'*': ['C05']},
+    'nodepred': {'*': ['C06', 'C05']},
 }
 
 NOT_APPLICABLE = {
